@@ -21,7 +21,9 @@ TECHNIQUE = (
     "points and interleavings; usage variations: a second live connection (own gateway, address pair, traffic) in the same event loop "
     "whose history is judged separately against ITS stream, several tasks (writers, a reader) using one connection at once, targets behind a "
     "gateway (routing activation answered with the gateway's own logical address), and writes whose CALLER gives up (write(timeout=t), t shorter "
-    "than the gateway's acknowledgement delay) followed by further reads/writes/alive checks on the same open connection"
+    "than the gateway's acknowledgement delay) followed by further reads/writes/alive checks on the same open connection, and message sizes "
+    "over the range of the 32-bit length field that is affordable (payload lengths 2**8 .. 2**20, at and around every power of two) for "
+    "gateway frames of every kind that carries data and for the client's requests, inside otherwise unchanged programs"
 )
 LEVEL_TEXT = (
     "Exploration with exhaustive sub-spaces: all 256 activation types x protocol versions x address pairs and every routing "
@@ -39,13 +41,17 @@ LEVEL_TEXT = (
     "caller before the - slow, mostly still legal - acknowledgement arrives (timeouts at 0.2/0.5/0.9 of the delay; positive/negative/late/no ack; "
     "other frames before the timeout); the connection is then used on (reads, writes, idle phases with alive checks) while the acknowledgement "
     "comes in, and drained; other writes carry a caller timeout that never strikes. "
+    "Message size: in about 12 % of the random programs (single, paired, concurrent users) some diagnostic messages for us / for others, unknown "
+    "frames, wrong-echo acks and requests (whose ack echoes a prefix or all of it) are enlarged to payload lengths of 2**k-1, 2**k, 2**k+1 "
+    "(k = 8..20) or log-uniform in between, the stream cut at up to 30 points over its whole length; the frames behind them, later "
+    "requests and alive checks are judged as usual (reads compare the whole user data). "
     "Held = held on those histories (known findings listed apart)."
 )
 LEVEL_NOTE = "Trusted: frame builders and offline checker in vf/checks/c06.py, gateway simulator vf/gateway.py, virtual clock. Only well-formed frames (corrupt headers belong to C08)."
 RULE = (
     "cases = (URI parameters, routing activation response incl. the answering entity's address, client op program (with caller timeouts of reads and writes) "
     "or concurrent task programs, gateway frame script with delays, "
-    "segmentation plan, optionally the same for a second connection of the same event loop plus its start offset); "
+    "segmentation plan, sizes (filler length, seed) of enlarged frames and requests, optionally the same for a second connection of the same event loop plus its start offset); "
     "non-trivial = the script contains at least one frame other than the awaited one or a split inside a frame; distinct = distinct case "
     "tuples; distinct_traces = distinct (frame label / op result) sequences"
 )
@@ -63,6 +69,8 @@ ASSUMPTIONS = [
     "still be delivered to a later read (generated since /repo bf4f29f repaired it; before, such messages were lost with the cancelled ack wait because "
     "DoIPConnection._read_ack kept skipped frames in a local list). DATA_BEFORE_CALLER_TIMEOUT = False switches this part of the workload off",
     "the gateway simulator sends in the order of scheduling: frames scheduled after a slow acknowledgement arrive after it",
+    "message sizes: the statement sets no upper bound for a diagnostic message (the length field has 32 bits); sizes up to 2**20 + 1 bytes of payload are generated, "
+    "larger ones (up to 4 GiB) are not run; a large frame arrives in the segments of the plan, each segment at once (no flow control on the in-memory stream)",
 ]
 EXHAUSTIVE = {"quick": False, "thorough": False}
 EXHAUSTIVE_NOTE = "exhaustive: 256 activation types, 256 routing activation response codes, pre-ack scripts to length 3/4, every single split point of the base scripts"
@@ -114,6 +122,85 @@ def split_client(buf: bytearray) -> list[bytes]:
     return out
 
 
+# ---- message size (usage variation: sizes far beyond classic ISO-TP; the DoIP length field has 32 bits) -------------------
+LARGE = 256  # payload length from which a frame counts as "large" here (the rest of the workload stays below 64 bytes)
+SIZE_BITS = (8, 20)  # payload lengths of enlarged frames: 2**8 .. 2**20 (+1)
+
+
+def filler(n: int, seed: int) -> bytes:
+    """n bytes of deterministic, non-repeating content (witnesses carry (n, seed) instead of the bytes)"""
+    return random.Random(int(seed)).randbytes(int(n))
+
+
+def body(spec: list[Any], i: int) -> bytes:
+    """user data / payload bytes of a frame spec: the hex string at position i, plus the filler of an enlarged spec
+    (spec ends in "fill", n, seed)"""
+    b = bytes.fromhex(spec[i])
+    if len(spec) >= 3 and spec[-3] == "fill":
+        b += filler(spec[-2], spec[-1])
+    return b
+
+
+def op_data(op: dict[str, Any]) -> bytes:
+    """request user data of a write op (op["fill"] = [n, seed] of an enlarged request)"""
+    return bytes.fromhex(op["data"]) + (filler(*op["fill"]) if op.get("fill") else b"")
+
+
+def pick_payload(rng: random.Random) -> int:
+    """payload length for an enlarged frame: half of them at a power of two of the length field (one below, at, one above - where
+    size limits and narrower length fields would sit), half log-uniform over the whole range"""
+    if rng.random() < 0.5:
+        return 2 ** rng.randint(*SIZE_BITS) + rng.choice([-1, 0, 1])
+    return int(2 ** rng.uniform(*SIZE_BITS))
+
+
+SPEC_BODY = {"D": (1, 4), "F": (1, 4), "U": (2, 0), "X": (1, 5)}  # letter -> (position of the hex string in the spec, payload bytes in front of it)
+
+
+def all_ops(sc: dict[str, Any]) -> list[dict[str, Any]]:
+    return [q for t in sc.get("tasks", []) for q in t] + sc["ops"]
+
+
+def enlarge(sc: dict[str, Any], share: float) -> bool:
+    """usage variation 'message size': for a share of the programs some of the gateway's frames (diagnostic messages for us and for
+    others, unknown payload types, acks echoing other data) and some of the client's requests (whose acknowledgement then echoes a
+    prefix or all of it) are enlarged to payload lengths over the whole range 2**8 .. 2**20, far beyond the 4095 bytes of classic
+    ISO-TP; everything else of the program (the frames around them, later requests, alive checks, drain reads) stays as it is. The
+    byte stream is cut at points over its whole length. Own random source, derived from the program: the other programs of the run
+    do not change."""
+    rng = random.Random("size/" + repr((sc["src"], sc["tgt"], sc["ver"], sc["ops"], sc.get("tasks"))))
+    if rng.random() >= share:
+        return False
+    slots: list[tuple[str, Any]] = []
+    for o in all_ops(sc):
+        if o["op"] == "W":
+            slots.append(("W", o))
+        for _, spec in o.get("react", []) + o.get("arrive", []):
+            if spec[0] in SPEC_BODY:
+                slots.append((spec[0], spec))
+    if not slots:
+        return False
+    chosen = [x for x in slots if rng.random() < 0.3] or [rng.choice(slots)]
+    total = 0
+    for kind, obj in chosen:
+        p = pick_payload(rng)
+        if kind == "W":
+            n = max(1, p - 4 - len(obj["data"]) // 2)
+            obj["fill"] = [n, rng.getrandbits(32)]
+            total += 2 * n  # (the request and possibly the echo in its acknowledgement)
+        else:
+            i, front = SPEC_BODY[kind]
+            n = max(1, p - front - len(obj[i]) // 2)
+            obj.extend(["fill", n, rng.getrandbits(32)])
+            total += n
+    sc["enlarged"] = True
+    if sc["bytewise"] and total > 5000:
+        sc["bytewise"] = False  # (a callback per byte)
+    if not sc["bytewise"] and rng.random() < 0.7:
+        sc["cuts"] = sorted(set(sc["cuts"]) | set(rng.sample(range(1, total + 400), rng.randint(1, 30))))
+    return True
+
+
 def shards(tier: str, seed: int) -> list[dict[str, Any]]:
     if tier == "quick":
         return ([{"mode": "connect", "part": i, "parts": 2} for i in range(2)] + [{"mode": "exh", "maxlen": 3, "part": i, "parts": 6, "splits": 30} for i in range(6)]
@@ -138,7 +225,13 @@ def required_reach(tier: str) -> dict[str, int]:
             "connect.success.entity-other-than-target": 500,
             # a write whose caller gives up (own timeout shorter than the gateway's ack delay), then further use of the same connection
             "write.caller-timeout-before-ack": 500, "write.caller-timeout-before-ack.ack-arrives-later": 300, "write.caller-timeout-before-ack.frames-before-it": 100,
-            "write.caller-timeout-generous": 200, "caller-timeout.then-read-delivered": 500, "caller-timeout.then-write-acked": 200}
+            "write.caller-timeout-generous": 200, "caller-timeout.then-read-delivered": 500, "caller-timeout.then-write-acked": 200,
+            # message sizes far beyond classic ISO-TP: payload lengths 2**8 .. 2**20 (bits.N = payload length has N binary digits; 17 = from 64 KiB)
+            "large-frame": 1000, **{f"large-frame.payload-bits.{n}": 20 for n in range(9, 22)}, "large-frame.kind.D": 500, "large-frame.kind.F": 100,
+            "large-frame.kind.U": 100, "large-frame.kind.ACK": 100, "large-frame.kind.X": 30, "large-frame.phase.before-ack": 300,
+            "large-frame.phase.blocked-in-read": 100, "large-frame.phase.idle": 300, "large-frame.other-frames-behind-it": 1000,
+            "large-frame.split-in-payload": 300, "large-frame.split-in-header": 30, "read.delivered.large": 400, "read.delivered.behind-large-frame": 500,
+            "write.acked.after-large-frame": 100, "write.acked.large-request": 100, "write.acked.large-echo": 30}
 
 
 # ---- scenario -----------------------------------------------------------------------------------------
@@ -146,20 +239,20 @@ def spec_frame(sc: dict[str, Any], spec: list[Any], req: bytes | None) -> tuple[
     ver, src, tgt = sc["ver"], sc["src"], sc["tgt"]
     k = spec[0]
     if k == "D":
-        return f_diag(ver, tgt, src, bytes.fromhex(spec[1])), "D"
+        return f_diag(ver, tgt, src, body(spec, 1)), "D"
     if k == "F":
         sa, ta = spec[2], spec[3]
-        return f_diag(ver, sa, ta, bytes.fromhex(spec[1])), "F"
+        return f_diag(ver, sa, ta, body(spec, 1)), "F"
     if k == "A":
         return f_alive(ver), "A"
     if k == "U":
-        return hdr(ver, spec[1], len(bytes.fromhex(spec[2]))) + bytes.fromhex(spec[2]), "U"
+        return hdr(ver, spec[1], len(body(spec, 2))) + body(spec, 2), "U"
     if k == "H":
         return hdr(ver, 0x0000, 1) + bytes([spec[1]]), "H"
     if k == "K":  # ack for another address pair
         return f_ack(ver, spec[1], spec[2], (req or b"")[: spec[3]]), "K"
     if k == "X":  # ack with our addresses but echoing other data
-        return f_ack(ver, tgt, src, bytes.fromhex(spec[1])), "X"
+        return f_ack(ver, tgt, src, body(spec, 1)), "X"
     if k == "N":  # negative ack, code other than TargetUnreachable
         return f_ack(ver, tgt, src, (req or b"")[: spec[2]], spec[1], negative=True), "N"
     if k == "ACK":
@@ -300,13 +393,13 @@ async def run_conn(sc: dict[str, Any], hub: Hub) -> dict[str, Any]:
         assert tr is not None
         g = gws[0]
         ts = loop.time()
-        rec: dict[str, Any] = {"op": op["op"], "ts": ts, "task": task, "data": op.get("data"), "timeout": op.get("timeout")}
+        rec: dict[str, Any] = {"op": op["op"], "ts": ts, "task": task, "data": op.get("data"), "fill": op.get("fill"), "timeout": op.get("timeout")}
         for d, spec in op.get("arrive", []):
             b, lab = spec_frame(sc, spec, None)
             g.send(d, b, lab)
         try:
             if op["op"] == "W":
-                data = bytes.fromhex(op["data"])
+                data = op_data(op)
                 reactions.setdefault(data, []).append(op["react"])
                 n = await tr.write(data, timeout=op.get("timeout"))
                 rec["res"] = ("ok", n)
@@ -416,6 +509,34 @@ def check_connect(ctx: Any, sc: dict[str, Any], out: dict[str, Any], w: dict[str
     return True
 
 
+def large_reach(ctx: Any, sc: dict[str, Any], out: dict[str, Any]) -> list[float]:
+    """situations around large gateway frames (payload length >= LARGE), read off the history; returns their arrival times"""
+    gfr, ops = out["g_frames"], out["ops"]
+    times: list[float] = []
+    off = 0
+    for gi, (t, f, l) in enumerate(gfr):
+        start, off = off, off + len(f)
+        p = len(f) - 8
+        if p < LARGE:
+            continue
+        times.append(t)
+        ctx.reach("large-frame")
+        ctx.reach(f"large-frame.kind.{l}")
+        ctx.reach(f"large-frame.payload-bits.{p.bit_length()}")  # 9 = 256..511, ..., 17 = 65536..131071, ..., 21 = 2**20 ..
+        phase = "idle"
+        for o in ops:
+            if o["ts"] <= t <= o["te"]:
+                phase = {"W": "before-ack", "R": "blocked-in-read", "idle": "idle"}[o["op"]]
+        ctx.reach(f"large-frame.phase.{phase}")
+        if gi + 1 < len(gfr):
+            ctx.reach("large-frame.other-frames-behind-it")
+        if not sc["bytewise"] and any(start + 8 < c < off for c in sc["cuts"]):
+            ctx.reach("large-frame.split-in-payload")
+        if not sc["bytewise"] and any(start < c < start + 8 for c in sc["cuts"]):
+            ctx.reach("large-frame.split-in-header")
+    return times
+
+
 def check(ctx: Any, sc: dict[str, Any], out: dict[str, Any], top: dict[str, Any] | None = None, role: str = "first", other: dict[str, Any] | None = None) -> None:
     """judges the history of ONE connection against the statement; `other` = history of the second connection of the same run (only
     used to name the origin of data that was never sent on this connection's stream)"""
@@ -425,6 +546,7 @@ def check(ctx: Any, sc: dict[str, Any], out: dict[str, Any], top: dict[str, Any]
         return
     gfr = out["g_frames"]
     cfr = out["c_frames"]
+    big_t = large_reach(ctx, sc, out)  # arrival times of large frames (message sizes beyond classic ISO-TP)
     # 3..6 op program
     our = [(t, f[12:]) for t, f, l in gfr if l == "D"]  # target->source diagnostic messages: (arrival, user data)
     delivered: list[bytes] = []
@@ -446,7 +568,7 @@ def check(ctx: Any, sc: dict[str, Any], out: dict[str, Any], top: dict[str, Any]
             continue
         if o["op"] == "W":
             spec_op = sc["ops"][out["ops"].index(o)]
-            data = bytes.fromhex(spec_op["data"])
+            data = op_data(spec_op)
             if wi >= len(diag_out) or diag_out[wi][1] != f_diag(ver, src, tgt, data) or abs(diag_out[wi][0] - ts) > TOL:
                 ctx.violation("write/request-frame", "write() did not put exactly the diagnostic message source->target on the stream", {**w, "op": o})
                 return
@@ -528,6 +650,12 @@ def check(ctx: Any, sc: dict[str, Any], out: dict[str, Any], top: dict[str, Any]
                 ctx.reach("write.acked")
                 if gave_up:
                     ctx.reach("caller-timeout.then-write-acked")
+                if len(data) + 4 >= LARGE:
+                    ctx.reach("write.acked.large-request")
+                if len(gfr[match[3]][1]) - 8 >= LARGE:
+                    ctx.reach("write.acked.large-echo")
+                if any(t < ts for t in big_t):
+                    ctx.reach("write.acked.after-large-frame")
             elif code == 0x06:
                 ctx.reach("write.nack-target-unreachable")
             else:
@@ -535,6 +663,8 @@ def check(ctx: Any, sc: dict[str, Any], out: dict[str, Any], top: dict[str, Any]
             if positive:
                 if res[0] != "ok":
                     phase = "alive-before-ack" if any(ts < t < t_ack and l == "A" for t, _, l in gfr) else "plain"
+                    if any(ts - TOL <= t <= t_ack + TOL for t in big_t):
+                        phase = "large-frame-before-or-as-ack"
                     ctx.violation(f"write/acked-but-fails/{phase}/{res[1]}", "the gateway acknowledged the message in time but write() failed", {**w, "op": o, "ack_at": t_ack})
                     closed_at = te
                     continue
@@ -551,15 +681,21 @@ def check(ctx: Any, sc: dict[str, Any], out: dict[str, Any], top: dict[str, Any]
                 ctx.reach("read.delivered")
                 if gave_up:
                     ctx.reach("caller-timeout.then-read-delivered")
+                if len(res[1]) + 4 >= LARGE:
+                    ctx.reach("read.delivered.large")
             elif res[3]:
                 ctx.reach("read.timeout")
             else:
-                ctx.violation(f"read/{res[1]}", "read() on an open connection fails with something other than a timeout", {**w, "op": o})
+                ctx.violation(f"read/{res[1]}" + ("/large-frame-on-the-stream" if any(t <= te + TOL for t in big_t) else ""),
+                              "read() on an open connection fails with something other than a timeout", {**w, "op": o})
                 closed_at = te
     # reads: exactly the user data of our diagnostic messages, in arrival order
     end = out["ops"][-1]["te"] if out["ops"] else 0.0
     horizon = closed_at if closed_at is not None else end
     expect = [d for a, d in our if a <= horizon + 1e-9]  # (+1e-9: the virtual clock may be an ulp behind the scheduled arrival time)
+    if delivered == expect[: len(delivered)] and big_t:
+        # messages that arrived behind a large frame (and the large ones themselves) came out of the reads, in order and unmodified
+        ctx.reach("read.delivered.behind-large-frame", sum(1 for a, _ in our[: len(delivered)] if a > big_t[0]))
     if delivered != expect[: len(delivered)]:
         it = iter(expect)
         if data_in_gave_up and all(d in it for d in delivered):  # (delivered is expect with omissions)
@@ -650,6 +786,7 @@ def check_conc(ctx: Any, sc: dict[str, Any], out: dict[str, Any], top: dict[str,
         return
     ctx.reach("conc.histories")
     gfr, cfr = out["g_frames"], out["c_frames"]
+    big_t = large_reach(ctx, sc, out)
     our = [(t, f[12:]) for t, f, l in gfr if l == "D"]
     ops = out["ops"]
     writes = [o for o in ops if o["op"] == "W"]
@@ -668,7 +805,7 @@ def check_conc(ctx: Any, sc: dict[str, Any], out: dict[str, Any], top: dict[str,
     broken = False
     found: list[tuple[str, str, dict[str, Any]]] = []
     for o in sorted(writes, key=lambda x: x["ts"]):
-        data = bytes.fromhex(o["data"])
+        data = op_data(o)
         res, te = o["res"], o["te"]
         sent = [t for t, f in cfr if f == f_diag(ver, src, tgt, data) and o["ts"] - TOL <= t <= te + TOL]
         if len(sent) != 1:
@@ -694,7 +831,7 @@ def check_conc(ctx: Any, sc: dict[str, Any], out: dict[str, Any], top: dict[str,
         if pos or code == 0x06:
             ctx.reach("conc.write-acked")
             if res[0] != "ok":
-                found.append((f"write/concurrent/acked-but-fails/{res[1]}", "the gateway acknowledged the message within the acknowledgement time of its transmission, but the write() - issued while other "
+                found.append((f"write/concurrent/acked-but-fails/{res[1]}" + ("/large-frame-before-or-as-ack" if any(o["ts"] - TOL <= t <= t_ack + TOL for t in big_t) else ""), "the gateway acknowledged the message within the acknowledgement time of its transmission, but the write() - issued while other "
                               "tasks were using the connection - failed", {**w, "op": o, "sent_at": t_send, "ack_at": t_ack}))
                 broken = True
             elif abs(te - t_ack) > TOL:
@@ -718,9 +855,10 @@ def check_conc(ctx: Any, sc: dict[str, Any], out: dict[str, Any], top: dict[str,
             if o["res"][3]:
                 ctx.reach("read.timeout")
             else:
-                ctx.violation(f"read/concurrent/{o['res'][1]}", "read() on an open connection fails with something other than a timeout", {**w, "op": o})
+                ctx.violation(f"read/concurrent/{o['res'][1]}" + ("/large-frame-on-the-stream" if any(t <= o["te"] + TOL for t in big_t) else ""), "read() on an open connection fails with something other than a timeout", {**w, "op": o})
                 return
     ctx.reach("read.delivered", len(delivered))
+    ctx.reach("read.delivered.large", sum(1 for d in delivered if len(d) + 4 >= LARGE))
     expect = [d for _, d in our]
     if delivered != expect[: len(delivered)]:
         if other is not None and any(d not in expect and d in other_data(other) for d in delivered):
@@ -909,6 +1047,7 @@ def random_program(rng: random.Random, uid0: int = 0, addr: tuple[int, int] | No
         sc["cuts"] = sorted(rng.sample(range(1, 400), rng.randint(1, 30)))
     elif r < 0.4:
         sc["bytewise"] = True
+    enlarge(sc, 0.12)
     return sc
 
 
@@ -969,6 +1108,7 @@ def conc_scenario(rng: random.Random) -> dict[str, Any]:
         sc["cuts"] = sorted(rng.sample(range(1, 300), rng.randint(1, 20)))
     elif r < 0.25:
         sc["bytewise"] = True
+    enlarge(sc, 0.1)
     return sc
 
 
